@@ -64,6 +64,15 @@ func (e *Executor) getPlanner() *Planner {
 	return e.syncer.planner
 }
 
+// getExecutorClient looks up a client under the lock that setPlanner holds
+// while it replaces the introspection client.
+func (e *Executor) getExecutorClient(service string) (ExecutorClient, bool) {
+	e.syncer.plannerMu.RLock()
+	defer e.syncer.plannerMu.RUnlock()
+	executorClient, ok := e.Executors[service]
+	return executorClient, ok
+}
+
 func (e *Executor) setPlanner(p *Planner, schema *graphql.Schema) {
 	e.syncer.plannerMu.Lock()
 	defer e.syncer.plannerMu.Unlock()
@@ -139,7 +148,7 @@ func (e *Executor) poll(ctx context.Context) error {
 
 func (e *Executor) runOnService(ctx context.Context, isRootPlan bool, service string, typName string, keys []interface{}, kind string, selectionSet *graphql.SelectionSet, metadata interface{}, planner *Planner) ([]interface{}, interface{}, error) {
 	// Execute query on specified service
-	executorClient, ok := e.Executors[service]
+	executorClient, ok := e.getExecutorClient(service)
 	if !ok {
 		return nil, nil, oops.Errorf("service %s not recognized", service)
 	}
